@@ -78,6 +78,65 @@ func (d *Desc) clone() *Desc {
 	return c
 }
 
+// compact drops the nodes that are not reachable from the value, the replacer or the indent and renumbers the rest
+// (creation order is preserved).
+func (d *Desc) compact() *Desc {
+	reach := map[int]bool{}
+	var visitNode func(id int)
+	visit := func(v DV) {
+		if v.T == "ref" {
+			visitNode(v.Ref)
+		}
+	}
+	visitNode = func(id int) {
+		if id < 0 || reach[id] {
+			return
+		}
+		reach[id] = true
+		n := d.Nodes[id]
+		visitNode(n.Target)
+		visitNode(n.Proto)
+		visit(n.Prim)
+		for _, p := range n.Props {
+			visit(p.Val)
+		}
+	}
+	visit(d.Root)
+	visit(d.Repl)
+	visit(d.Space)
+	newID := map[int]int{}
+	c := &Desc{Patches: append([]Patch(nil), d.Patches...)}
+	for _, n := range d.Nodes {
+		if reach[n.ID] {
+			newID[n.ID] = len(c.Nodes)
+			m := *n
+			m.ID = len(c.Nodes)
+			m.Props = append([]DProp(nil), n.Props...)
+			c.Nodes = append(c.Nodes, &m)
+		}
+	}
+	fix := func(v DV) DV {
+		if v.T == "ref" {
+			v.Ref = newID[v.Ref]
+		}
+		return v
+	}
+	for _, n := range c.Nodes {
+		if n.Target >= 0 {
+			n.Target = newID[n.Target]
+		}
+		if n.Proto >= 0 {
+			n.Proto = newID[n.Proto]
+		}
+		n.Prim = fix(n.Prim)
+		for i := range n.Props {
+			n.Props[i].Val = fix(n.Props[i].Val)
+		}
+	}
+	c.Root, c.Repl, c.Space = fix(d.Root), fix(d.Repl), fix(d.Space)
+	return c
+}
+
 // ---------------------------------------------------------------- JS printer
 
 func jsString(s string) string {
